@@ -156,11 +156,9 @@ def step (s : State) (toks : List String) : State × String :=
       | .ok (.ok t) => ({ tview := some (TView.ofTensor t) }, "ok")
     | _, _ => ({}, "bad-op")
   | "@" :: "to_range" :: sS :: lS :: _ =>
-    -- `Range<usize>::from(IndexRange::new(start, length))`, demanded: the saturated end (fix D-14)
+    -- `Range<usize>::from(IndexRange::new(start, length))` as written (dev profile)
     match sS.toNat?, lS.toNat? with
-    | some st, some l =>
-      let r := IndexRange.toStdRange ⟨st, l⟩
-      ({}, s!"ok {r.1}..{r.2}")
+    | some st, some l => ({}, showOutcome (fun r => s!"ok {r.1}..{r.2}") (IndexRange.toStdRangePre ⟨st, l⟩))
     | _, _ => ({}, "bad-op")
   | "@" :: "from_range" :: sS :: eS :: _ =>
     match sS.toNat?, eS.toNat? with
